@@ -168,24 +168,53 @@ function project(ast, isModule) {
   function stmts(list, sc) {
     for (const s of list) stmt(s, sc);
   }
-  function block(n, sc) {   // a BlockStatement that is not a function body
+  // A block that declares nothing lexically is not observable as a scope; the minifier drops or keeps its braces
+  // depending on whether a `var` keyword stayed inside, so it is spliced into the surrounding list.
+  function hasLexical(list) {
+    return list.some(s => (s.type === 'VariableDeclaration' && s.kind !== 'var') || s.type === 'FunctionDeclaration' || s.type === 'ClassDeclaration');
+  }
+  function block(n, sc, braces) {   // a BlockStatement that is not a function body
+    if (!hasLexical(n.body)) {
+      if (braces) S.push('{'); stmts(n.body, sc); if (braces) S.push('}');
+      return;
+    }
     const bs = newScope(sc, 'block');
     S.push('{'); stmts(n.body, bs); S.push('}');
   }
+  // E1, E2, ..., En in a position evaluated exactly once before anything else of the statement:
+  // E1; ...; En-1 are statements of their own (the minifier merges preceding expression statements into such positions)
+  function lead(e, sc) {
+    if (e.type === 'SequenceExpression') {
+      for (const x of e.expressions.slice(0, -1)) exprStmtItems(x, sc);
+      return e.expressions[e.expressions.length - 1];
+    }
+    return e;
+  }
   function exprStmtItems(e, sc) {
     // a, b, c;  ==  a; b; c;      (hoisting turns `var a=1` into `a=1` which may be merged with neighbours)
+    // t ? a : b;  ==  if (t) a; else b;      t && a;  ==  if (t) a;     (the minifier prints the statement form
+    // when a `var` keyword stayed inside a branch, the expression form otherwise)
     if (e.type === 'SequenceExpression') for (const x of e.expressions) exprStmtItems(x, sc);
-    else { S.push('ES'); expr(e, sc); }
+    else if (e.type === 'ConditionalExpression') {
+      S.push('if'); expr(e.test, sc);
+      S.push('{'); exprStmtItems(e.consequent, sc); S.push('}');
+      S.push('else'); S.push('{'); exprStmtItems(e.alternate, sc); S.push('}');
+    } else if (e.type === 'LogicalExpression' && e.operator === '&&') {
+      S.push('if'); expr(e.left, sc);
+      S.push('{'); exprStmtItems(e.right, sc); S.push('}'); S.push('noelse');
+    } else { S.push('ES'); expr(e, sc); }
+  }
+  // for(init;;): an init that is not a lexical declaration is evaluated once before the loop, in a scope that
+  // declares nothing: it is the same as statements in front of the loop (where the minifier takes them from)
+  function forInitBefore(n, outer, fsc) {
+    if (n && !(n.type === 'VariableDeclaration' && n.kind !== 'var')) {
+      if (n.type === 'VariableDeclaration') { for (const d of varDecl(n, fsc)) { S.push('ES'); varAssign(d, outer); } }
+      else exprStmtItems(n, outer);
+    }
   }
   function forInit(n, sc) {
     S.push('Init[');
-    if (n) {
-      if (n.type === 'VariableDeclaration') {
-        if (n.kind === 'var') for (const d of varDecl(n, sc)) varAssign(d, sc);
-        else lexDecl(n, sc);
-      } else if (n.type === 'SequenceExpression') for (const x of n.expressions) expr(x, sc);
-      else expr(n, sc);
-    }
+    if (n && n.type === 'VariableDeclaration' && n.kind !== 'var') lexDecl(n, sc);
     S.push(']');
   }
   function forLeft(n, sc) {
@@ -198,8 +227,10 @@ function project(ast, isModule) {
       } else { S.push('left' + n.kind); pattern(d.id, sc, n.kind); }
     } else { S.push('left'); pattern(n, sc, 'use'); }
   }
-  function body(n, sc) {   // statement position that may or may not be a block
-    if (n.type === 'BlockStatement') block(n, sc); else { S.push('('); stmt(n, sc); S.push(')'); }
+  function body(n, sc) {   // statement position that may or may not be a block: braces are not observable
+    if (n.type === 'BlockStatement') {
+      if (hasLexical(n.body)) block(n, sc, true); else { S.push('{'); stmts(n.body, sc); S.push('}'); }
+    } else { S.push('{'); stmt(n, sc); S.push('}'); }
   }
 
   function stmt(n, sc) {
@@ -215,22 +246,25 @@ function project(ast, isModule) {
         if (!isVarScope(sc)) P.blockfn = true;
         S.push('FD'); decl(n.id, sc, 'function'); func(n, sc); return;
       case 'ClassDeclaration': cls(n, sc); return;
-      case 'BlockStatement': block(n, sc); return;
-      case 'EmptyStatement': S.push(';'); return;
+      case 'BlockStatement': block(n, sc, false); return;
+      case 'EmptyStatement': return;
       case 'DebuggerStatement': S.push('debugger'); return;
-      case 'ReturnStatement': S.push('return'); if (n.argument) expr(n.argument, sc); else S.push('-'); return;
-      case 'ThrowStatement': S.push('throw'); expr(n.argument, sc); return;
+      case 'ReturnStatement':
+        if (n.argument) { const a = lead(n.argument, sc); S.push('return'); expr(a, sc); } else { S.push('return'); S.push('-'); }
+        return;
+      case 'ThrowStatement': { const a = lead(n.argument, sc); S.push('throw'); expr(a, sc); return; }
       case 'BreakStatement': case 'ContinueStatement':
         S.push(n.type); if (n.label) pub(n.label.name); else S.push('-'); return;
       case 'LabeledStatement': S.push('Label'); pub(n.label.name); body(n.body, sc); return;
       case 'IfStatement':
-        S.push('if'); expr(n.test, sc); body(n.consequent, sc);
+        { const t = lead(n.test, sc); S.push('if'); expr(t, sc); } body(n.consequent, sc);
         if (n.alternate) { S.push('else'); body(n.alternate, sc); } else S.push('noelse');
         return;
       case 'WhileStatement': S.push('while'); expr(n.test, sc); body(n.body, sc); return;
       case 'DoWhileStatement': S.push('do'); body(n.body, sc); expr(n.test, sc); return;
       case 'ForStatement': {
         const fsx = newScope(sc, 'for');
+        forInitBefore(n.init, sc, fsx);
         S.push('for'); forInit(n.init, fsx);
         if (n.test) expr(n.test, fsx); else S.push('-');
         if (n.update) expr(n.update, fsx); else S.push('-');
@@ -241,7 +275,7 @@ function project(ast, isModule) {
         S.push(n.type + (n.await ? 'await' : '')); forLeft(n.left, fsx); expr(n.right, fsx); body(n.body, fsx); return;
       }
       case 'SwitchStatement': {
-        S.push('switch'); expr(n.discriminant, sc);
+        { const d = lead(n.discriminant, sc); S.push('switch'); expr(d, sc); }
         const ss = newScope(sc, 'switch');
         for (const c of n.cases) {
           if (c.test) { S.push('case'); expr(c.test, ss); } else S.push('default');
@@ -250,18 +284,18 @@ function project(ast, isModule) {
         S.push('endswitch'); return;
       }
       case 'TryStatement': {
-        S.push('try'); block(n.block, sc);
+        S.push('try'); block(n.block, sc, true);
         if (n.handler) {
           const cs = newScope(sc, 'catch');
           S.push('catch');
           if (n.handler.param) pattern(n.handler.param, cs, 'catch'); else S.push('-');
-          block(n.handler.body, cs);
+          block(n.handler.body, cs, true);
         }
-        if (n.finalizer) { S.push('finally'); block(n.finalizer, sc); }
+        if (n.finalizer) { S.push('finally'); block(n.finalizer, sc, true); }
         return;
       }
       case 'WithStatement': {
-        S.push('with'); expr(n.object, sc);
+        { const o = lead(n.object, sc); S.push('with'); expr(o, sc); }
         const ws = newScope(sc, 'with');
         body(n.body, ws); return;
       }
@@ -414,12 +448,12 @@ function execute(src, freeNames) {
   }
   sb.out = function () { if (obs.length < 400) obs.push('out(' + Array.prototype.map.call(arguments, x => ser(x, 0)).join(',') + ')'); };
   try {
-    vm.runInNewContext(src, sb, { timeout: 300 });
+    vm.runInNewContext(src, sb, { timeout: 5000 });
     obs.push('end');
   } catch (e) {
     // the wording of messages contains identifier spellings; only the kind of completion is an observation
-    obs.push('throw:' + (e && e.constructor && e.constructor.name ? e.constructor.name : typeof e) +
-      (e && e.code === 'ERR_SCRIPT_EXECUTION_TIMEOUT' ? ':timeout' : ''));
+    if (e && e.code === 'ERR_SCRIPT_EXECUTION_TIMEOUT') return null;   // machine load must not decide anything
+    obs.push('throw:' + (e && e.constructor && e.constructor.name ? e.constructor.name : typeof e));
   }
   return obs;
 }
@@ -457,7 +491,8 @@ function processOne(ev, doExec) {
   if (same) for (let i = 0; i < a.shape.length; i++) if (a.shape[i] !== b.shape[i]) { same = false; break; }
   if (doExec && !pk.module) {
     const free = new Set(base.inn);
-    base.obsk = execute(ev.keep, free); base.obsr = execute(ev.ren, free); base.exec = true;
+    const ok = execute(ev.keep, free), or = execute(ev.ren, free);
+    if (ok !== null && or !== null) { base.obsk = ok; base.obsr = or; base.exec = true; }
   }
   if (!same) {
     base.st = 'mismatch';
